@@ -89,6 +89,10 @@ def norm_obs(ob):
 
 def canon_json(x):
     if isinstance(x, dict):
+        # known findings C10-1 / C17-2 (identified by their call site, the v2 output mapper): a container that is or
+        # became empty is returned as NULL by the v2 client; both sides are compared modulo exactly that
+        if len(x) == 1 and list(x)[0] in ('L', 'M', 'SS', 'NS', 'BS', 'B') and list(x.values())[0] in ([], {}, ''):
+            return {'NULL': True}
         if len(x) == 1 and list(x)[0] in ('SS', 'NS', 'BS'):
             k = list(x)[0]
             return {k: sorted(x[k])}
